@@ -146,7 +146,10 @@ ConvDomain(n) == IF n \in {"from_level", "as_log_level", "as_trace_level"} THEN 
 ConvCases == { [k |-> "conv", f |-> n, v |-> v] : n \in ConvNames, v \in FilterRanks }
 \* the value is published by a hand-written collector's hint, by tracing-subscriber's LevelFilter used as a layer on a
 \* Registry, or by fmt().with_max_level(..)
-SetMaxCases == { [k |-> "setmax", v |-> v, via |-> x] : v \in FilterRanks, x \in {"collector", "layer", "fmt"} }
+SetMaxCases == { [k |-> "setmax", v |-> v, via |-> x] : v \in FilterRanks, x \in {"collector", "layer", "fmt", "arc", "box"} }
+\* two collectors alive at once, publishing w and v (9 = no hint, which stands for TRACE): the value read back is the more verbose
+SetMaxLiveCases == { [k |-> "setmaxlive", w |-> w, v |-> v] : w \in FilterRanks \cup {9}, v \in FilterRanks \cup {9} }
+HintOrTrace(h) == IF h = 9 THEN 5 ELSE h
 \* a history of two publications in one process: the value read back is the LAST one published
 \* (MAX_LEVEL is process-global state; `w` is published first, then `v`)
 SetMax2Cases == { [k |-> "setmax2", w |-> w, v |-> v] : w \in FilterRanks, v \in FilterRanks }
@@ -157,7 +160,7 @@ LayerCases == { [k |-> "layer", l |-> l, f |-> f, q |-> q] : l \in LevelRanks, f
 
 Cases == {c \in CmpCases \cup SelCases \cup EnCases : WellKinded(c)} \cup LayerCases
          \cup ParseCases \cup {c \in PrintCases : c.v \in RanksOf(c.ty)}
-         \cup {c \in ConvCases : c.v \in ConvDomain(c.f)} \cup SetMaxCases \cup SetMax2Cases
+         \cup {c \in ConvCases : c.v \in ConvDomain(c.f)} \cup SetMaxCases \cup SetMax2Cases \cup SetMaxLiveCases
 
 \* every conversion is the identity on ranks (an order-preserving bijection); into_level(OFF) = None = 0
 A(c) == CASE c.k = "cmp"   -> AOp(c.op, c.l, c.r)
@@ -166,6 +169,7 @@ A(c) == CASE c.k = "cmp"   -> AOp(c.op, c.l, c.r)
           [] c.k = "conv"  -> c.v
           [] c.k = "setmax" -> c.v
           [] c.k = "setmax2" -> c.v
+          [] c.k = "setmaxlive" -> (IF HintOrTrace(c.w) >= HintOrTrace(c.v) THEN HintOrTrace(c.w) ELSE HintOrTrace(c.v))
           [] c.k = "layer" -> (CASE c.q = "enabled" -> AOp("enabled", c.l, c.f)
                                  [] c.q = "interest" -> 2 * AOp("enabled", c.l, c.f)
                                  [] c.q = "hint" -> c.f)
@@ -175,6 +179,8 @@ M(c) == CASE c.k = "cmp"   -> MOp(c.op, c.l, c.r)
           [] c.k = "conv"  -> Dec(Enc(c.v))
           [] c.k = "setmax" -> Dec(Enc(c.v))
           [] c.k = "setmax2" -> Dec(Enc(c.v))      \* set_max is an unconditional swap
+          \* rebuild_interest: fold `max` over the live dispatchers' hints, each defaulting to TRACE (inverted encoding: the smaller code)
+          [] c.k = "setmaxlive" -> Dec(IF Enc(HintOrTrace(c.w)) <= Enc(HintOrTrace(c.v)) THEN Enc(HintOrTrace(c.w)) ELSE Enc(HintOrTrace(c.v)))
           [] c.k = "layer" -> (CASE c.q = "enabled" -> MOp("enabled", c.l, c.f)          \* `self >= metadata.level()`
                                  [] c.q = "interest" -> 2 * MOp("enabled", c.l, c.f)
                                  [] c.q = "hint" -> Dec(Enc(c.f)))
